@@ -1043,3 +1043,120 @@ Definition text_ok (s : str) : bool :=
 Definition gitem_ok (i : titem) : bool := match i with TText s => text_ok s | TEmb e => abnf_ok e end.
 Definition in_grammar (s : str) : Prop :=
   (exists e, abnf_ok e = true /\ s = print e) \/ (exists t, forallb gitem_ok t = true /\ s = print_tpl t).
+
+(* ---------------------------------------------------------------------- *)
+(* The link OBJECT over a history of evaluations (links.py:149-175).
+   OpenApiLink.extract = lru_cache(8)(_extract_impl) keyed by the case id of the source exchange
+   (StepOutputWrapper.__hash__ / __eq__); a Transition holds REFERENCES to its inner name -> ExtractedParam dicts,
+   so the model carries a Python heap of inner dicts: what a Transition says is what the heap holds when it is read.
+   src = a source exchange (StepOutput); cid = its case id (any injective encoding); fresh / fresh_body = what
+   extract_parameters / extract_body compute on that exchange alone.
+   shared = false: the code as it is - extract_parameters starts from a new dict and setdefault creates new inner dicts
+                   on every extraction;
+   shared = true : REGRESSION SENTINEL - the inner dicts are created once per link object (one per container name) and
+                   every extraction writes into them (a shallow copy of a prebuilt container layout). *)
+Section LinkObject.
+  Variable src : Type.
+  Variable cid : src -> N.
+  Variable fresh : src -> extracted.
+  Variable fresh_body : src -> option xval.
+  Variable cap : nat.                      (* lru_cache(8) *)
+  Variable shared : bool.
+  Variable containers : list str.          (* container names of the link parameters (used by the shared variant) *)
+
+  Definition inner := list (str * xval).
+  Definition heap := list inner.
+  (* a Transition object: parent_id, parameters = container -> reference to an inner dict, request_body *)
+  Record tobj := { t_parent : N; t_params : list (str * nat); t_body : option xval }.
+  Record lstate := { ls_heap : heap; ls_memo : list (N * tobj) }.     (* memo: most recently used first *)
+  (* what a reader of the Transition sees *)
+  Definition tview := (N * extracted * option xval)%type.
+
+  Definition read (h : heap) (t : tobj) : tview :=
+    (t_parent t, map (fun cr => (fst cr, nth (snd cr) h [])) (t_params t), t_body t).
+
+  Definition fresh_view (x : src) : tview := (cid x, fresh x, fresh_body x).
+
+  (* new inner dicts for every extraction *)
+  Definition alloc (h : heap) (e : extracted) : heap * list (str * nat) :=
+    (h ++ map snd e, List.combine (map fst e) (seq (length h) (length e))).
+
+  (* the shared variant *)
+  Definition shared_refs : list (str * nat) := List.combine containers (seq 0 (length containers)).
+  Fixpoint heap_set (r : nat) (d : inner) (h : heap) : heap :=
+    match h, r with
+    | [], _ => []
+    | _ :: t, O => d :: t
+    | x :: t, S r' => x :: heap_set r' d t
+    end.
+  Definition write_shared (h : heap) (e : extracted) : heap :=
+    fold_left (fun h cd => match assoc_get (fst cd) shared_refs with
+                           | Some r => heap_set r (assoc_update (nth r h []) (snd cd)) h
+                           | None => h
+                           end) e h.
+
+  Definition init_heap : heap := if shared then map (fun _ => []) containers else [].
+  Definition link_init : lstate := {| ls_heap := init_heap; ls_memo := [] |}.
+
+  (* _extract_impl *)
+  Definition extract_impl (h : heap) (x : src) : heap * tobj :=
+    if shared then
+      (write_shared h (fresh x), {| t_parent := cid x; t_params := shared_refs; t_body := fresh_body x |})
+    else
+      let (h1, refs) := alloc h (fresh x) in
+      (h1, {| t_parent := cid x; t_params := refs; t_body := fresh_body x |}).
+
+  Fixpoint memo_get (k : N) (m : list (N * tobj)) : option tobj :=
+    match m with
+    | [] => None
+    | (k1, t) :: r => if N.eqb k k1 then Some t else memo_get k r
+    end.
+  Definition memo_drop (k : N) (m : list (N * tobj)) : list (N * tobj) :=
+    filter (fun e => negb (N.eqb k (fst e))) m.
+
+  (* OpenApiLink.extract: a hit returns the memoised OBJECT (and makes it most recent); a miss computes, stores, evicts
+     the least recently used entry beyond cap *)
+  Definition link_extract (st : lstate) (x : src) : lstate * tobj :=
+    match memo_get (cid x) (ls_memo st) with
+    | Some t => ({| ls_heap := ls_heap st; ls_memo := (cid x, t) :: memo_drop (cid x) (ls_memo st) |}, t)
+    | None =>
+        let (h1, t) := extract_impl (ls_heap st) x in
+        ({| ls_heap := h1; ls_memo := firstn cap ((cid x, t) :: ls_memo st) |}, t)
+    end.
+
+  (* a history of evaluations; every returned object is kept together with what it said when it was returned *)
+  Fixpoint link_run (st : lstate) (xs : list src) : lstate * list (tobj * tview) :=
+    match xs with
+    | [] => (st, [])
+    | x :: r =>
+        let (st1, t) := link_extract st x in
+        let (st2, ts) := link_run st1 r in
+        (st2, (t, read (ls_heap st1) t) :: ts)
+    end.
+
+  Definition views_at_return (xs : list src) : list tview := map snd (snd (link_run link_init xs)).
+  (* the same objects read again after the whole history *)
+  Definition views_at_end (xs : list src) : list tview :=
+    let (st, ts) := link_run link_init xs in map (fun tv => read (ls_heap st) (fst tv)) ts.
+End LinkObject.
+
+(* container names of a link in first-occurrence order *)
+Definition link_containers (l : link) : list str :=
+  map fst (fold_left (fun acc p => assoc_set (lp_container p) tt acc) (l_params l) []).
+
+(* the instance the harness evaluates: the live source exchanges are a table of contexts, a source is named by its index
+   (= its case id), extraction is extract_parameters / extract_body of the link on that context *)
+Definition ctx_none : ctx :=
+  {| c_url := []; c_method := []; c_status := 0%Z; c_query := None; c_path := None; c_headers := None;
+     c_body := VNotSet; r_headers := []; r_body := None |}.
+Definition ctx_at (tbl : list ctx) (k : N) : ctx := nth (N.to_nat k) tbl ctx_none.
+Definition link_history (rx_ok : str -> bool) (rx_extract : str -> str -> option str) (l : link) (shared : bool)
+                        (tbl : list ctx) (xs : list N) : list tview * list tview :=
+  let f := fun k : N => extract_parameters rx_ok rx_extract (ctx_at tbl k) l in
+  let fb := fun k : N => extract_body rx_ok rx_extract (ctx_at tbl k) l in
+  (views_at_return N (fun k => k) f fb 8 shared (link_containers l) xs,
+   views_at_end N (fun k => k) f fb 8 shared (link_containers l) xs).
+(* what each source denotes on its own: a fresh evaluation of the link on that exchange only *)
+Definition link_fresh_views (rx_ok : str -> bool) (rx_extract : str -> str -> option str) (l : link)
+                            (tbl : list ctx) (xs : list N) : list tview :=
+  map (fun k => (k, extract_parameters rx_ok rx_extract (ctx_at tbl k) l, extract_body rx_ok rx_extract (ctx_at tbl k) l)) xs.
